@@ -10,6 +10,7 @@ import (
 	"encoding/binary"
 	"io"
 	"math"
+	"os"
 )
 
 // handleRead handles NFSPROC3_READ - read from file
@@ -227,6 +228,17 @@ func (h *NFSProcedureHandler) handleCommit(body io.Reader, reply *RPCReply, auth
 	node, ok := h.lookupNode(handleVal)
 	if !ok {
 		return nfsErrorWithWcc(reply, NFSERR_STALE), nil
+	}
+
+	// Flush the file to stable storage before acknowledging the commit
+	f, err := h.server.handler.fs.OpenFile(node.path, os.O_RDONLY, 0)
+	if err != nil {
+		return nfsErrorWithWcc(reply, mapError(err)), nil
+	}
+	syncErr := f.Sync()
+	f.Close()
+	if syncErr != nil {
+		return nfsErrorWithWcc(reply, mapError(syncErr)), nil
 	}
 
 	// R23: Return NFS error instead of nil,err
